@@ -556,8 +556,19 @@ func (x *fnExec) execBlock(st *State, b *ssa.BasicBlock, pred *ssa.BasicBlock) {
 			x.autoFrame(st, li, "", true)
 			// remember the loop-head values for step clauses
 			pv := map[string]Term{}
-			for k, t := range x.ctxLoop(st, li).vars {
+			lc := x.ctxLoop(st, li)
+			for k, t := range lc.vars {
 				pv[k] = t
+			}
+			// ghost variables too: prev(g) is the ghost state at the loop head
+			for name, g := range x.v.cs.GhostVars {
+				if _, dup := pv[name]; dup {
+					continue
+				}
+				gt, gs := x.v.resolveType(g.Type, x.pkg)
+				if gs != "" {
+					pv[name] = mkTerm(st.heapGet(x.v, "GH_"+name, gs), gs, gt)
+				}
 			}
 			st.prevVals[b] = pv
 			start = x.numPhis(b)
